@@ -15,6 +15,7 @@ package tree
 import (
 	"errors"
 	"fmt"
+	"math"
 	"strconv"
 	"strings"
 	"unicode"
@@ -745,7 +746,8 @@ func findStyleAttributes(tree *utils.HTMLNode, presentationalHints bool, baseUrl
 	iter := tree.Iter()
 	for iter.HasNext() {
 		element := iter.Next()
-		specificity := selector.Specificity{1, 0, 0}
+		// a style attribute outranks every selector (which could reach {1, 0, 0} with a single id)
+		specificity := selector.Specificity{math.MaxInt32, 0, 0}
 		styleAttribute := element.Get("style")
 		if styleAttribute != "" {
 			out = append(out, styleAttrSpec{specificity: specificity, styleAttr: checkStyleAttribute(element, styleAttribute)})
